@@ -25,16 +25,20 @@ import (
 // In hold mode written bytes are parked in Held until the harness moves them (possibly altered) to
 // the readable side with Feed.
 type Wire struct {
-	mu       sync.Mutex
-	cond     *sync.Cond
-	readable []byte // visible to the reader
-	held     []byte // written while hold was on, not yet visible
-	hold     bool
-	strict   bool   // a read that would block fails with ErrStarved instead
-	wclosed  bool   // writer finished: reader gets EOF after draining readable
-	rclosed  bool   // reader closed: writes fail
-	log      []byte // every byte the writer ever wrote (transcript)
-	name     string
+	mu      sync.Mutex
+	cond    *sync.Cond
+	chunks  [][]byte // visible to the reader: a queue of written blocks (no large reallocation)
+	off     int      // read offset into chunks[0]
+	pending int      // bytes visible and not yet read
+	limit   int      // >0: a writer blocks while more than limit bytes are pending (bounded buffer)
+	held    []byte   // written while hold was on, not yet visible
+	hold    bool
+	strict  bool   // a read that would block fails with ErrStarved instead
+	wclosed bool   // writer finished: reader gets EOF after draining readable
+	rclosed bool   // reader closed: writes fail
+	log     []byte // every byte the writer ever wrote (transcript), unless nolog
+	nolog   bool
+	name    string
 }
 
 // NewWire creates an empty pass-through wire.
@@ -75,7 +79,22 @@ func (w *Wire) TakeHeld() []byte {
 // Feed makes bytes visible to the reader (harness side injection).
 func (w *Wire) Feed(b []byte) {
 	w.mu.Lock()
-	w.readable = append(w.readable, b...)
+	w.push(b)
+	w.mu.Unlock()
+	w.cond.Broadcast()
+}
+
+func (w *Wire) push(b []byte) {
+	if len(b) > 0 {
+		w.chunks = append(w.chunks, append([]byte(nil), b...))
+		w.pending += len(b)
+	}
+}
+
+// SetLimit bounds the buffer: writers block while more than n bytes are pending (0 = unbounded).
+func (w *Wire) SetLimit(n int) {
+	w.mu.Lock()
+	w.limit = n
 	w.mu.Unlock()
 	w.cond.Broadcast()
 }
@@ -109,12 +128,20 @@ func (w *Wire) write(p []byte) (int, error) {
 	if w.rclosed || w.wclosed {
 		return 0, io.ErrClosedPipe
 	}
-	w.log = append(w.log, p...)
+	for w.limit > 0 && !w.hold && w.pending > w.limit && !w.rclosed && !w.wclosed {
+		w.cond.Wait()
+	}
+	if w.rclosed || w.wclosed {
+		return 0, io.ErrClosedPipe
+	}
+	if !w.nolog {
+		w.log = append(w.log, p...)
+	}
 	if w.hold {
 		w.held = append(w.held, p...)
 		return len(p), nil
 	}
-	w.readable = append(w.readable, p...)
+	w.push(p)
 	w.cond.Broadcast()
 	return len(p), nil
 }
@@ -126,9 +153,25 @@ func (w *Wire) read(p []byte) (int, error) {
 		if w.rclosed {
 			return 0, io.ErrClosedPipe
 		}
-		if len(w.readable) > 0 {
-			n := copy(p, w.readable)
-			w.readable = w.readable[n:]
+		if len(w.chunks) > 0 {
+			n := 0
+			for n < len(p) && len(w.chunks) > 0 {
+				k := copy(p[n:], w.chunks[0][w.off:])
+				n += k
+				w.off += k
+				w.pending -= k
+				if w.off == len(w.chunks[0]) {
+					w.chunks[0] = nil
+					w.chunks = w.chunks[1:]
+					w.off = 0
+				}
+			}
+			if len(w.chunks) == 0 {
+				w.chunks = nil
+			}
+			if w.limit > 0 {
+				w.cond.Broadcast()
+			}
 			return n, nil
 		}
 		if w.wclosed {
@@ -196,6 +239,14 @@ func NewLink(x, y string) *Link {
 	l := &Link{XY: NewWire(x + ">" + y), YX: NewWire(y + ">" + x)}
 	l.X = &Conn{In: l.YX, Out: l.XY, local: x, remote: y}
 	l.Y = &Conn{In: l.XY, Out: l.YX, local: y, remote: x}
+	return l
+}
+
+// NewBulkLink is NewLink without transcripts (for connections that carry hundreds of megabytes).
+func NewBulkLink(x, y string) *Link {
+	l := NewLink(x, y)
+	l.XY.nolog, l.YX.nolog = true, true
+	l.XY.limit, l.YX.limit = 4<<20, 4<<20 // a few packets of run-ahead, no per-frame rendezvous
 	return l
 }
 
